@@ -1,4 +1,5 @@
 import Anysystem.Props.C05
+import Anysystem.Proofs.SimRunThms
 #print axioms Anysystem.instLawfulTimeTicks
 #print axioms Anysystem.Sim.send_same_node
 #print axioms Anysystem.Sim.send_cut_dropped
@@ -13,3 +14,11 @@ import Anysystem.Props.C05
 #print axioms Anysystem.Sim.reset_heals_keeps_rates
 #print axioms Anysystem.Sim.dropIncoming_directional
 #print axioms Anysystem.Sim.dropOutgoing_directional
+#print axioms Anysystem.Sim.TraceOrigin.init
+#print axioms Anysystem.Sim.TraceOrigin.sendMessage
+#print axioms Anysystem.Sim.TraceOrigin.step
+#print axioms Anysystem.Sim.TraceOrigin.steps
+#print axioms Anysystem.Sim.TraceOrigin.sendLocal
+#print axioms Anysystem.Sim.TraceOrigin.crashNode
+#print axioms Anysystem.Sim.TraceOrigin.recoverNode
+#print axioms Anysystem.Sim.received_intact_no_corruption
